@@ -306,3 +306,27 @@ example : Trav.exec cfgOk {} evsBad = none := rfl
 end C03.Witness
 
 end Dht
+
+namespace Dht
+
+/-- Kept counterexample (known finding, DESIGN.md 12.5): the stalled offer a sleeping run loop
+holds can be *stale*. The offer is computed under the lock, but it is handed over in the same
+`select` as the wake-up channel; if contacts are added to an idle lookup, the offer stays
+receivable until the run loop goroutine is scheduled again. Reachable state: the loop sleeps
+offering stalled, the generation has moved on, a startable candidate is in the frontier, and
+`stalledReceived` is enabled. This is why `stalled_means_exhausted` needs the view to be current
+(`s.gen = g`). -/
+theorem C03.stale_offer_possible :
+    ∃ (c : TravCfg) (evs : List TravEv), c.sigBeforeUnlock = true ∧ c.alpha > 0 ∧
+      (match Trav.exec c {} evs with
+       | some s =>
+         (match s.run with
+          | .sleeping g true =>
+            decide (s.gen > g) && s.haveQuery c && (s.step c (.runWake .stalledReceived)).isSome
+          | _ => false)
+       | none => false) = true :=
+  ⟨{ target := List.replicate 20 0 },
+   [.runEval, .addNodes [⟨some (List.replicate 20 1), ⟨1, [10, 0, 0, 1], 1000⟩⟩]],
+   by decide +kernel⟩
+
+end Dht
